@@ -499,14 +499,14 @@ LOCAL_PLAN = {
     'C20': [('aggregate', False), ('aggregate', True)],
 }
 LOCAL_MONITORS = {
-    'C01': ['bad_decide', 'ok_without_cause', 'requested_non_dependency'],
+    'C01': ['bad_decide', 'ok_without_cause', 'requested_non_dependency', 'reports_on_another_target'],
     'C04': ['late_unanswered', 'misdirected_ok'],
-    'C06': ['late_unanswered', 'bad_decide', 'ok_without_cause'],
+    'C06': ['late_unanswered', 'bad_decide', 'ok_without_cause', 'reports_on_another_target'],
     'C07': ['ok_on_fail', 'ok_without_cause'],
     'C08': ['twice'],
     'C11': ['double_proc', 'wrong_actual', 'proc_left_at_exit'],
     'C10': ['proc_left_at_exit', 'double_proc'],
-    'C20': ['ok_without_cause', 'late_unanswered', 'misdirected_ok', 'wrong_actual'],
+    'C20': ['ok_without_cause', 'late_unanswered', 'misdirected_ok', 'wrong_actual', 'reports_on_another_target'],
 }
 
 
